@@ -234,7 +234,7 @@ def replay(run, r):
     replay_stacks(run, r.emits)
     seen = set()
     for e in r.emits:
-        if e["obj"]["cls"] in ("polygon", "cpolygon", "cpoint") and e["A"] != e["B"] and (e["sA"] or e["obj"]["cls"] == "polygon"):
+        if (e["obj"]["cls"], len(e["A"])) in (("polygon", 3), ("cpoint", 2), ("cpolygon", 3)) and e["A"] != e["B"] and (e["sA"] or e["obj"]["cls"] == "polygon"):
             if (e["obj"]["cls"], len(e["A"])) not in seen:
                 seen.add((e["obj"]["cls"], len(e["A"])))
                 run.sample(dict(kind="projective action case (%s, %dx%d)" % (e["obj"]["cls"], len(e["A"]), len(e["A"])), **e))
